@@ -132,37 +132,128 @@ class STok:
         desc = []
         dims = list(self.shape)
         i = 0
+        plain = True
         for sl in ks:
             if sl is None:
                 shape.append(1)
                 desc.append(None)
+                plain = False
                 continue
             d = dims[i]
             i += 1
             if isinstance(sl, slice):
-                shape.append(len(range(*sl.indices(d))))
+                r = range(*sl.indices(d))
+                shape.append(len(r))
                 desc.append((sl.start, sl.stop, sl.step))
+                if r.step != 1:
+                    plain = False
             elif isinstance(sl, int) and -d <= sl < d:
                 desc.append(sl)
+                plain = False
             else:
                 raise IndexError(f"index {sl!r} on an abstract block of shape {self.shape}")
         shape += dims[i:]
+        if plain:
+            n = self._restrict(tuple(desc))
+            if n is not None:
+                return n
         return STok(("slice", self.term, tuple(desc)), shape)
+
+    def _restrict(self, desc):
+        """normalising slice: a window of a structured block (concat / zeros+placements) that does not cut through any
+        piece is the structure restricted to the window; a single piece filling the window is that piece itself"""
+        from .layout import LayoutError, placements, slice_window
+
+        win = slice_window(desc, self.shape)
+        if win == tuple((0, d) for d in self.shape):
+            return self._simplified()
+        t = self.term
+        if not (isinstance(t, tuple) and t and t[0] in ("concat", "placed", "zeros")):
+            return None
+        try:
+            pcs = placements(t, self.shape)
+        except LayoutError:
+            return None
+        shape = tuple(b - a for a, b in win)
+        items = []
+        for w, src_ in pcs.items():
+            inside = all(a >= wa and b <= wb for (a, b), (wa, wb) in zip(w, win))
+            outside = any(b <= wa or a >= wb for (a, b), (wa, wb) in zip(w, win))
+            if inside:
+                items.append((tuple((a - wa, b - wa) for (a, b), (wa, wb) in zip(w, win)), src_))
+            elif not outside:
+                return None  # the window cuts through a piece: left opaque (and judged by the rules)
+        if not items:
+            return STok(("zeros", shape), shape)
+        if len(items) == 1 and items[0][0] == tuple((0, d) for d in shape):
+            return STok(items[0][1], shape)
+        return STok(("placed", shape, tuple(sorted(items, key=repr))), shape)
+
+    def _simplified(self):
+        """a structured block consisting of one piece that fills it is that piece"""
+        t = self.term
+        while isinstance(t, tuple) and t:
+            if t[0] == "concat" and len(t[2]) == 1:
+                t = t[2][0][0]
+            elif t[0] == "placed" and len(t[2]) == 1 and t[2][0][0] == tuple((0, d) for d in self.shape):
+                t = t[2][0][1]
+            else:
+                break
+        return self if t is self.term else STok(t, self.shape)
 
     def reshape(self, *shape):
         if len(shape) == 1 and isinstance(shape[0], (tuple, list)):
             shape = tuple(shape[0])
+        self = self._simplified()
         known = 1
         for d in shape:
             if d != -1:
                 known *= d
-        out = [self.size // max(known, 1) if d == -1 else d for d in shape]
+        out = tuple(self.size // max(known, 1) if d == -1 else d for d in shape)
         n = 1
         for d in out:
             n *= d
         if n != self.size:
             raise ValueError(f"cannot reshape abstract block of shape {self.shape} into {tuple(shape)}")
-        return STok(("reshape", self.term, tuple(shape)), out)
+        if out == self.shape:
+            return self
+        t = self.term
+        if isinstance(t, tuple) and t and t[0] in ("concat", "placed") and len(out) > len(self.shape):
+            n_ = self._split_axis(out)
+            if n_ is not None:
+                return n_
+        if isinstance(t, tuple) and t and t[0] == "reshape" and len(t) == 4:
+            if t[3] == out:
+                return STok(t[1], out)  # reshaped back
+            return STok(("reshape", t[1], tuple(shape) if -1 in shape else out, t[3]), out)
+        return STok(("reshape", t, tuple(shape), self.shape), out)
+
+    def _split_axis(self, out):
+        """reshape that splits one axis of a structured block whose pieces all span that axis: pushed into the pieces"""
+        from .layout import LayoutError, placements
+
+        shape = self.shape
+        m = len(out) - len(shape) + 1
+        try:
+            pcs = placements(self.term, shape)
+        except LayoutError:
+            return None
+        for k in range(len(shape)):
+            n = 1
+            for d in out[k:k + m]:
+                n *= d
+            if not (shape[:k] == out[:k] and shape[k + 1:] == out[k + m:] and n == shape[k]):
+                continue
+            if any(w[k] != (0, shape[k]) for w in pcs):
+                continue
+            items = []
+            for w, src_ in pcs.items():
+                pshape = tuple(b - a for a, b in w)
+                nshape = pshape[:k] + tuple(out[k:k + m]) + pshape[k + 1:]
+                nw = w[:k] + tuple((0, d) for d in out[k:k + m]) + w[k + 1:]
+                items.append((nw, STok(src_, pshape).reshape(nshape).term))
+            return STok(("placed", tuple(out), tuple(sorted(items, key=repr))), out)._simplified()
+        return None
 
     def _bin(self, op, o, rev=False):
         ot = getattr(o, "term", ("const", repr(o)))
@@ -175,11 +266,17 @@ class STok:
         return self._bin("mul", o, True)
 
     def __add__(self, o):
-        if isinstance(o, STok) and o.shape != self.shape:
-            raise ValueError(f"adding abstract blocks of shapes {self.shape} and {o.shape}")
+        if isinstance(o, STok):
+            if o.shape != self.shape:
+                raise ValueError(f"adding abstract blocks of shapes {self.shape} and {o.shape}")
+            return STok(sum_term([self.term, o.term]), self.shape)
+        if o == 0:
+            return self
         return self._bin("add", o)
 
     def __radd__(self, o):
+        if o == 0:
+            return self
         return self._bin("add", o, True)
 
     def __sub__(self, o):
@@ -189,9 +286,32 @@ class STok:
         return self._bin("div", o)
 
     def __neg__(self):
-        if isinstance(self.term, tuple) and self.term and self.term[0] == "neg":
-            return STok(self.term[1], self.shape)
-        return STok(("neg", self.term), self.shape)
+        t = self.term
+        if isinstance(t, tuple) and t and t[0] == "neg":
+            return STok(t[1], self.shape)
+        if isinstance(t, tuple) and t and t[0] == "zeros":
+            return self
+        if isinstance(t, tuple) and t and t[0] == "reshape" and len(t) == 4:
+            # canonical form: signs sit at the leaves, re-indexing outside
+            return STok(("reshape", (-STok(t[1], t[3])).term, t[2], t[3]), self.shape)
+        if isinstance(t, tuple) and t and t[0] == "transpose":
+            inv = [0] * len(t[2])
+            for i, p_ in enumerate(t[2]):
+                inv[p_] = i
+            inner_shape = tuple(self.shape[inv[j]] for j in range(len(inv)))
+            return STok(("transpose", (-STok(t[1], inner_shape)).term, t[2]), self.shape)
+        if isinstance(t, tuple) and t and t[0] in ("concat", "placed"):
+            from .layout import LayoutError, placements
+
+            try:
+                pcs = placements(t, self.shape)
+            except LayoutError:
+                return STok(("neg", t), self.shape)
+            items = []
+            for w, src_ in pcs.items():
+                items.append((w, (-STok(src_, tuple(b - a for a, b in w))).term))
+            return STok(("placed", self.shape, tuple(sorted(items, key=repr))), self.shape)
+        return STok(("neg", t), self.shape)
 
     def __eq__(self, o):
         return isinstance(o, STok) and self.term == o.term and self.shape == o.shape
@@ -201,6 +321,21 @@ class STok:
 
     def __repr__(self):
         return f"STok{self.term}{self.shape}"
+
+
+def sum_term(terms):
+    """canonical (order-insensitive, flattened) sum of terms"""
+    flat = []
+    for t in terms:
+        if isinstance(t, tuple) and t and t[0] == "sum":
+            flat.extend(t[1])
+        elif isinstance(t, tuple) and t and t[0] == "zeros":
+            continue
+        else:
+            flat.append(t)
+    if len(flat) == 1:
+        return flat[0]
+    return ("sum", tuple(sorted(flat, key=repr)))
 
 
 class Model:
@@ -364,6 +499,44 @@ def audit(arr, symname, want_class=None):
     return out
 
 
+def _structured_product(a, b, axa, axb, shape):
+    """product of two structured blocks (concat / zeros+placements) over ONE contracted axis: pieces whose windows along the
+    contracted axis coincide multiply, the result is structured again; windows that overlap without coinciding make the
+    product opaque with a `misaligned` marker (the layouts of the two operands disagree)"""
+    from .layout import LayoutError, placements
+
+    def structured(t):
+        return isinstance(t.term, tuple) and t.term and t.term[0] in ("concat", "placed", "zeros")
+
+    if len(axa) > 1 or not (structured(a) or structured(b)):
+        return None
+    try:
+        pa, pb = placements(a.term, a.shape), placements(b.term, b.shape)
+    except LayoutError:
+        return None
+    out = {}
+    for wa, sa in pa.items():
+        for wb, sb in pb.items():
+            if axa:
+                ia, ib = axa[0], axb[0]
+                (a0, a1), (b0, b1) = wa[ia], wb[ib]
+                if a1 <= b0 or b1 <= a0:
+                    continue
+                if (a0, a1) != (b0, b1):
+                    return STok(("misaligned", a.term, b.term, ("windows", wa[ia], wb[ib])), shape)
+            win = tuple(w for i, w in enumerate(wa) if i not in axa) + tuple(w for j, w in enumerate(wb) if j not in axb)
+            out.setdefault(win, []).append(("tensordot", sa, sb, tuple(axa), tuple(axb)))
+    wins = list(out)
+    for i in range(len(wins)):
+        for j in range(i + 1, len(wins)):
+            if wins[i] != wins[j] and all(x0 < y1 and y0 < x1 for (x0, x1), (y0, y1) in zip(wins[i], wins[j])):
+                return None  # free windows that overlap without coinciding: not a block structure
+    if not out:
+        return STok(("zeros", shape), shape)
+    items = tuple(sorted(((w, sum_term(ts)) for w, ts in out.items()), key=repr))
+    return STok(("placed", shape, items), shape)._simplified()
+
+
 def shaped_backend():
     """abstract backend functions over shaped tokens (shapes are tracked, contents are terms)"""
 
@@ -395,7 +568,14 @@ def shaped_backend():
             raise ValueError(f"transpose of shape {t.shape} with axes {perm}")
         if perm == tuple(range(t.ndim)):
             return t
-        return STok(("transpose", t.term, perm), tuple(t.shape[p] for p in perm))
+        shape = tuple(t.shape[p] for p in perm)
+        if isinstance(t.term, tuple) and t.term and t.term[0] == "transpose":
+            inner = t.term[2]
+            comp = tuple(inner[p] for p in perm)
+            if comp == tuple(range(t.ndim)):
+                return STok(t.term[1], shape)
+            return STok(("transpose", t.term[1], comp), shape)
+        return STok(("transpose", t.term, perm), shape)
 
     def reshape(t, shape):
         return t.reshape(tuple(shape))
@@ -412,6 +592,9 @@ def shaped_backend():
         if [a.shape[i] for i in axa] != [b.shape[j] for j in axb]:
             raise ValueError(f"tensordot of abstract blocks {a.shape} x {b.shape} over {axa},{axb}: contracted sizes differ")
         shape = tuple(d for i, d in enumerate(a.shape) if i not in axa) + tuple(d for j, d in enumerate(b.shape) if j not in axb)
+        st = _structured_product(a, b, axa, axb, shape)
+        if st is not None:
+            return st
         return STok(("tensordot", a.term, b.term, axa, axb), shape)
 
     def matmul(a, b):
@@ -478,8 +661,11 @@ class ZTok(STok):
         want = tuple(b - a for a, b in rng)
         if getattr(v, "shape", None) != want:
             raise ValueError(f"placing a block of shape {getattr(v, 'shape', None)} into a window of shape {want}")
-        self.placed[tuple(rng)] = v.term
-        self.term = ("placed", tuple(self.shape), tuple(sorted(self.placed.items(), key=repr)))
+        if isinstance(v, ZTok) or (isinstance(v.term, tuple) and v.term and v.term[0] == "zeros"):
+            self.placed.pop(tuple(rng), None)
+        else:
+            self.placed[tuple(rng)] = v.term
+        self.term = ("placed", tuple(self.shape), tuple(sorted(self.placed.items(), key=repr))) if self.placed else ("zeros", tuple(self.shape))
 
 
 def shaped_libfn(table=None):
